@@ -1,27 +1,17 @@
 """C17 — FUSE manager's persistent record equals its live mounts across re-init/restart."""
 import os
 
-# Candidate findings: behaviours of the CURRENT code that the property text arguably excludes and
-# that are not (yet) listed in findings/known_findings.txt.  Histories that trigger them run in
-# separate passes so that the main pass stays a clean tie.  While a signature is not listed the
-# pass reports it as `CANDIDATE-FINDING` (loud, recorded in the evidence, exit code unaffected);
-# once a `known:` line exists it takes the normal KNOWN-FINDING path.  Every OTHER oracle failure
-# or stream mismatch of these passes is a violation as usual.
-CANDIDATES = {
-    # SV/Props/C17.lean `reinit_after_close_serves_unrecorded`
-    "served-after-close-unrecorded":
-        "Close() is not terminal: Init on the closed Server (history: init ok; close; init -> err 'database not "
-        "open' but status Ready; mount mp -> ok) serves mp although the store file is gone and storeFuseInfo's "
-        "error is ignored",
-    # observation: the Config field of a record is never read back (restoreFuseInfo ignores it)
-    "record-config-not-owner-config":
-        "a re-Init that fails in a configFunc or in construction has already replaced fm.config; the old "
-        "filesystem keeps serving and later Mounts record the NEW config with the OLD filesystem (history: "
-        "init A ok; init B cfgfunc -> err; mount mp -> ok on the fs built from A, record carries B)",
-}
-
-
-def extra_pass(ctx, binary, tag, env):
+# Known finding `served-after-close-unrecorded` (findings/known_findings.txt; SV/Props/C17.lean
+# `reinit_after_close_serves_unrecorded`): Close() is not terminal, Init on the closed Server makes it
+# Ready again and a Mount is then served without a store record.  Histories with Init-after-Close
+# (3 hand-written scenarios + generated ones) run in their own pass on every run, so that the main
+# pass stays a clean tie.  ctx.correspond would downgrade a stream mismatch to a note as soon as ANY
+# oracle failure (also a known one) is present, so this pass does the same steps itself: every oracle
+# failure goes through ctx.add_violation (known signature -> KNOWN-FINDING, anything else -> VIOLATION)
+# and a model/implementation mismatch is a broken tie unless an UNKNOWN failure already explains it.
+def after_close_pass(ctx, binary, n):
+    tag = "c17ac"
+    env = {"VERIF_N": n, "VERIF_C17_AFTERCLOSE": 1}
     ops, impl, rep = ctx.run_harness(binary, "TestVerifC17", tag, env=env)
     if rep.get("crashed"):
         ctx.add_violation({"kind": "harness-crash", "test": "TestVerifC17", "seed": ctx.seed, "env": env,
@@ -38,29 +28,20 @@ def extra_pass(ctx, binary, tag, env):
     for k, v in (rep.get("stats") or {}).items():
         st[k] = st.get(k, 0) + v
     fails = rep.get("oracle_failures") or []
-    cand = {}
-    other = []
-    for f in fails:
-        if f["sig"] in CANDIDATES and not ctx.is_known(f["sig"]):
-            cand.setdefault(f["sig"], []).append(f)
-        else:
-            other.append(f)
-    ctx.cov["oracle_failures"] += len(other)
+    unknown = [f for f in fails if not ctx.is_known(f["sig"])]
+    ctx.cov["oracle_failures"] += len(unknown)
     seen = set()
-    for f in other:
+    for f in fails:
         if f["sig"] not in seen:
             seen.add(f["sig"])
             ctx.add_violation({"kind": "oracle", "test": "TestVerifC17", "seed": ctx.seed, "env": env,
-                               "failure": f, "all_failures": other[:20]}, sig=f["sig"])
-    if nm and not [f for f in other if not ctx.is_known(f["sig"])]:
+                               "failure": f, "all_failures": (unknown or fails)[:20]}, sig=f["sig"])
+    if nm and not unknown:
         ctx.broken.append("correspondence:" + tag)
         ctx.pending_mismatch = {"kind": "correspondence", "test": "TestVerifC17", "seed": ctx.seed, "env": env,
                                 "mismatches": mism, "count": nm}
-    for sig, fs in sorted(cand.items()):
-        print(f"CANDIDATE-FINDING: property=C17 sig={sig} ({len(fs)} hits, e.g. {fs[0]['what']}) {CANDIDATES[sig]}",
-              flush=True)
-        ctx.notes.append(f"candidate finding {sig}: {len(fs)} hits, e.g. {fs[0]['what']} -- {CANDIDATES[sig]}")
-        ctx.cov.setdefault("candidate_findings", []).append({"sig": sig, "hits": len(fs), "example": fs[0]["what"]})
+    elif nm:
+        ctx.notes.append(f"{nm} correspondence mismatches in {tag} (oracle failures present)")
 
 
 def run(ctx):
@@ -79,8 +60,15 @@ def run(ctx):
             for i in range(1, 4):
                 ctx.correspond(b, "TestVerifC17", "svdriver_c17", f"c17s{i}",
                                env={"VERIF_N": 2000, "VERIF_SEED": int(ctx.seed) * 1000 + i})
-        extra_pass(ctx, b, "c17ac", {"VERIF_N": 40 if quick else 600, "VERIF_C17_AFTERCLOSE": 1})
-        extra_pass(ctx, b, "c17cfg", {"VERIF_N": 40 if quick else 600, "VERIF_C17_STALECFG": 1})
+        after_close_pass(ctx, b, 40 if quick else 600)
+        nobs = sum((st or {}).get("obs-record-config-differs-from-owner-config", 0)
+                   for st in ctx.cov["stats"].values())
+        if nobs:
+            ctx.notes.append(
+                f"observation (not a clause of C17): {nobs} new mounts were recorded with a config other than the "
+                "one their serving filesystem was built from (a re-Init that failed in a configFunc/construction "
+                "had already replaced fm.config; restoreFuseInfo never reads the field) -- see "
+                "SV.Props.C17.failed_reinit_records_new_config_on_old_fs")
     return ctx.finish(
         level="proof",
         rule="histories of Init(config stage / configFunc / construction failure, per-mountpoint fs.Mount failure "
@@ -94,6 +82,6 @@ def run(ctx):
             "each RPC is atomic (Init/Close hold fm.lock exclusively; concurrent RPCs on one mountpoint are not modelled)",
             "bolt transactions are atomic and an open database does not fail; records are not corrupted externally",
             "mountpoint keys are non-empty and below bolt's key size limit (storeFuseInfo errors are ignored by Mount)",
-            "store invariants are claimed for a Server whose Close() has not run (Init after Close: see candidate finding)",
+            "store invariants are claimed for a Server whose Close() has not run (Init after Close: known finding served-after-close-unrecorded)",
             "gRPC transport, real FUSE mounts and mountinfo are outside the model (mountinfo is an oracle bit)",
         ])
